@@ -1,38 +1,63 @@
 //go:build verif
 
 // C04 harness (engine E3): real mailbox implementations under controlled schedules.
-//   <mailbox> | prog0 ; prog1 ; … | schedule
-// ops: e<k> = Enqueue(message k), d = Dequeue, emp = IsEmpty, len = Len
+//
+//	<mailbox> [args] | prog0 ; prog1 ; … | schedule
+//
+// mailboxes: unbounded | segmented | fair | uprio <pf> | usprio <pf> | bprio <cap> <pf> |
+// bsprio <cap> <pf> | ring <cap> | bounded <cap> (black box: one sequential program, no schedule)
+// priority functions <pf> on message ids: lt (a<b), gt (a>b), d2 (a/2<b/2), m3 (a%3<b%3)
+// ops: e<k> = Enqueue(message k), e<k>@<s> = Enqueue(message k from sender s),
+// d = Dequeue, emp = IsEmpty, len = Len
 package main
 
 import (
+	"runtime"
+	"runtime/debug"
 	"strconv"
 	"strings"
+	"sync/atomic"
+	"time"
 
 	"github.com/tochemey/goakt/v4/actor"
 	"github.com/tochemey/goakt/v4/internal/verifdrv/vlib"
 )
 
-type mbox struct{ m actor.Mailbox }
+// clock is the logical time of a case: it ticks at every invocation and every return of a mailbox
+// operation, so `r@s-e` records the real-time interval of the operation (one thread runs at a time).
+type mbox struct {
+	m     actor.Mailbox
+	clock atomic.Int64
+}
 
-func (o *mbox) Do(tid int, op string) string {
+func doOp(m actor.Mailbox, op string) string {
 	switch {
 	case op == "d":
-		rc := o.m.Dequeue()
+		rc := m.Dequeue()
 		if rc == nil {
 			return "nil"
 		}
 		return strconv.Itoa(actor.VerifContextID(rc))
 	case op == "emp":
-		return strconv.FormatBool(o.m.IsEmpty())
+		return strconv.FormatBool(m.IsEmpty())
 	case op == "len":
-		return strconv.FormatInt(o.m.Len(), 10)
+		return strconv.FormatInt(m.Len(), 10)
 	case strings.HasPrefix(op, "e"):
-		id, err := strconv.Atoi(op[1:])
+		body := op[1:]
+		key := 0
+		if i := strings.IndexByte(body, '@'); i >= 0 {
+			k, err := strconv.Atoi(body[i+1:])
+			if err != nil {
+				return "bad-op"
+			}
+			key = k
+			body = body[:i]
+		}
+		id, err := strconv.Atoi(body)
 		if err != nil {
 			return "bad-op"
 		}
-		if err := o.m.Enqueue(actor.VerifNewContext(id)); err != nil {
+		if err := m.Enqueue(actor.VerifNewContextFrom(id, key)); err != nil {
 			return "full"
 		}
 		return "ok"
@@ -40,6 +65,14 @@ func (o *mbox) Do(tid int, op string) string {
 	return "bad-op"
 }
 
+func (o *mbox) Do(tid int, op string) string {
+	s := o.clock.Add(1)
+	r := doOp(o.m, op)
+	e := o.clock.Add(1)
+	return r + "@" + strconv.FormatInt(s, 10) + "-" + strconv.FormatInt(e, 10)
+}
+
+// Final drains the mailbox sequentially (all logical threads are done) and appends Len().
 func (o *mbox) Final() string {
 	var out []string
 	for i := 0; i < 100000; i++ {
@@ -49,19 +82,133 @@ func (o *mbox) Final() string {
 		}
 		out = append(out, strconv.Itoa(actor.VerifContextID(rc)))
 	}
-	return strings.Join(out, " ")
+	return strings.TrimSpace(strings.Join(out, " ") + " # " + strconv.FormatInt(o.m.Len(), 10))
 }
 
-func mk(cfg string, n int) vlib.Obj {
-	f := strings.Fields(cfg)
-	if len(f) == 0 {
-		return nil
-	}
-	switch f[0] {
-	case "unbounded":
-		return &mbox{m: actor.NewUnboundedMailbox()}
+func prio(name string) actor.PriorityFunc {
+	id := actor.VerifMsgID
+	switch name {
+	case "lt":
+		return func(a, b any) bool { return id(a) < id(b) }
+	case "gt":
+		return func(a, b any) bool { return id(a) > id(b) }
+	case "d2":
+		return func(a, b any) bool { return id(a)/2 < id(b)/2 }
+	case "m3":
+		return func(a, b any) bool { return id(a)%3 < id(b)%3 }
 	}
 	return nil
 }
 
-func main() { vlib.Loop(func(line string) string { return vlib.RunConc(line, mk) }) }
+func newMailbox(cfg string) actor.Mailbox {
+	f := strings.Fields(cfg)
+	if len(f) == 0 {
+		return nil
+	}
+	num := func(i int) (int, bool) {
+		if i >= len(f) {
+			return 0, false
+		}
+		n, err := strconv.Atoi(f[i])
+		return n, err == nil && n >= 1 && n <= 1<<16
+	}
+	pf := func(i int) actor.PriorityFunc {
+		if i >= len(f) {
+			return nil
+		}
+		return prio(f[i])
+	}
+	switch f[0] {
+	case "unbounded":
+		return actor.NewUnboundedMailbox()
+	case "segmented":
+		// the case names the segment size its model run assumes; it must be the real constant
+		if c, ok := num(1); ok && c == actor.VerifSegmentSize() {
+			actor.VerifResetSegmentPool()
+			return actor.NewUnboundedSegmentedMailbox()
+		}
+	case "fair":
+		return actor.NewUnboundedFairMailbox()
+	case "uprio":
+		if p := pf(1); p != nil {
+			return actor.NewUnboundedPriorityMailBox(p)
+		}
+	case "usprio":
+		if p := pf(1); p != nil {
+			return actor.NewUnboundedStablePriorityMailbox(p)
+		}
+	case "bprio":
+		if c, ok := num(1); ok {
+			if p := pf(2); p != nil {
+				return actor.NewBoundedPriorityMailbox(c, p)
+			}
+		}
+	case "bsprio":
+		if c, ok := num(1); ok {
+			if p := pf(2); p != nil {
+				return actor.NewBoundedStablePriorityMailbox(c, p)
+			}
+		}
+	case "ring":
+		if c, ok := num(1); ok {
+			return actor.NewNonBlockingBoundedMailbox(c)
+		}
+	case "bounded":
+		if c, ok := num(1); ok {
+			return actor.NewBoundedMailbox(c)
+		}
+	}
+	return nil
+}
+
+func mk(cfg string, n int) vlib.Obj {
+	m := newMailbox(cfg)
+	if m == nil {
+		return nil
+	}
+	return &mbox{m: m}
+}
+
+// runSeq: the blocking BoundedMailbox (third-party ring buffer, not instrumented) is driven by
+// one sequential program; an operation that blocks (Put on a full ring) is reported as `stuck`.
+func runSeq(line string) string {
+	parts := strings.Split(line, "|")
+	if len(parts) != 3 {
+		return "bad-case"
+	}
+	m := newMailbox(strings.TrimSpace(parts[0]))
+	if m == nil {
+		return "bad-case"
+	}
+	ops := strings.Fields(parts[1])
+	resc := make(chan string, 1)
+	go func() {
+		var rs []string
+		for _, op := range ops {
+			rs = append(rs, vlib.Safe(func() string { return doOp(m, op) }))
+		}
+		fin := vlib.Safe((&mbox{m: m}).Final)
+		resc <- "T | R " + strings.Join(rs, ",") + " | F " + fin
+	}()
+	select {
+	case r := <-resc:
+		return r
+	case <-time.After(3 * time.Second):
+		m.Dispose()
+		return "stuck"
+	}
+}
+
+func main() {
+	// one P and no background GC: sync.Pool (segment pool, sender-node pool) is then a
+	// deterministic function of the Put/Get sequence of the case itself.
+	runtime.GOMAXPROCS(1)
+	debug.SetGCPercent(-1)
+	vlib.Loop(func(line string) string {
+		defer runtime.GC()
+		if strings.HasPrefix(strings.TrimSpace(line), "bounded ") {
+			return runSeq(line)
+		}
+		return vlib.RunConc(line, mk)
+	})
+}
